@@ -885,14 +885,9 @@ impl<T: Serialize + for<'de> Deserialize<'de> + Clone + PartialEq + Send + Sync 
 
         for snapshot_path in snapshots.iter().rev() {
             match self.load_snapshot(snapshot_path).await {
-                Ok((header, loaded_state)) => {
-                    // Verify checksum
-                    let data = postcard::to_stdvec(&loaded_state).map_err(|e| {
-                        P2PError::Storage(StorageError::Database(
-                            format!("Failed to serialize for checksum: {e}").into(),
-                        ))
-                    })?;
-
+                Ok((header, loaded_state, data)) => {
+                    // Verify checksum over the bytes that were read (re-serialising
+                    // the map would not reproduce them: HashMap order is arbitrary)
                     let mut hasher = Sha256::new();
                     hasher.update(&data);
                     let checksum: [u8; 32] = hasher.finalize().into();
@@ -1207,7 +1202,10 @@ impl<T: Serialize + for<'de> Deserialize<'de> + Clone + PartialEq + Send + Sync 
     }
 
     /// Load snapshot from file
-    async fn load_snapshot(&self, path: &Path) -> Result<(SnapshotHeader, HashMap<String, T>)> {
+    async fn load_snapshot(
+        &self,
+        path: &Path,
+    ) -> Result<(SnapshotHeader, HashMap<String, T>, Vec<u8>)> {
         let mut file = File::open(path).map_err(|e| {
             P2PError::Storage(StorageError::Database(
                 format!("Failed to open snapshot: {e}").into(),
@@ -1253,7 +1251,7 @@ impl<T: Serialize + for<'de> Deserialize<'de> + Clone + PartialEq + Send + Sync 
             ))
         })?;
 
-        Ok((header, state))
+        Ok((header, state, snapshot_data))
     }
 
     /// Clean up old WAL files
@@ -1460,15 +1458,9 @@ impl<T: Serialize + for<'de> Deserialize<'de> + Clone + PartialEq + Send + Sync 
 
     /// Verify snapshot integrity
     async fn verify_snapshot_integrity(&self, path: &Path) -> Result<()> {
-        let (header, state) = self.load_snapshot(path).await?;
+        let (header, _state, data) = self.load_snapshot(path).await?;
 
-        // Verify checksum
-        let data = postcard::to_stdvec(&state).map_err(|e| {
-            P2PError::Storage(StorageError::Database(
-                format!("Failed to serialize for checksum: {e}").into(),
-            ))
-        })?;
-
+        // Verify checksum over the bytes that were read
         let mut hasher = Sha256::new();
         hasher.update(&data);
         let checksum: [u8; 32] = hasher.finalize().into();
